@@ -137,6 +137,22 @@ def gen_case(rng, it, tier):
         e[-1] = np.nan
         e[n // 2] = np.nan
     explicit = bool(it % 2)
+    if it % 19 == 7 and n >= 3:
+        # one coefficient tiny but not zero, acting on a level that dwarfs the innovations
+        # (a series far from its mean): its term is as large as the others
+        phi = phi.copy()
+        phi[int(rng.integers(0, order))] = [5e-11, -1e-12, 3e-20, 1e-10][(it // 19) % 4] \
+            * [1, -1][it % 2]
+        ini = float(mean + [2e13, -5e14, 1e22, 3e12][(it // 19) % 4] * sc)
+        explicit = True
+        tags.append("tiny-coefficient-large-level")
+    if it % 23 == 9 and n >= 2:
+        # innovations, mean and initial value at the bottom of the number line (all
+        # subnormal): still numbers, not missing values
+        e = rng.normal(size=n) * 1e-310
+        mean, ini = 0.0, [0.0, 3e-311][(it // 23) % 2]
+        explicit = True
+        tags.append("subnormal-series")
     return {"kind": "ar", "phi": phi, "e": e, "mean": mean, "ini": ini,
             "explicit": explicit, "tags": tags}
 
@@ -193,7 +209,8 @@ def run_case(ctx, case):
     if y.shape != e.shape:
         return
     ymax = float(np.max(np.abs(yref))) if n else 0.0
-    tol = 64 * yb + 1e-300
+    FLOOR = 1e-300 if ymax > 1e-290 or ymax == 0 else 1e-3 * ymax + 5e-322
+    tol = 64 * yb + FLOOR
     # (series growing beyond 1e150 are explosive for every practical purpose: sums of
     # such values - the default mean - overflow in double precision)
     stable = n == 0 or (bool(np.all(np.isfinite(yref))) and bool(np.all(np.isfinite(yb)))
@@ -258,7 +275,7 @@ def run_case(ctx, case):
         # bound: residual of y recomputes pred from y itself; error dominated by yb
         amp = 1 + float(np.sum(np.abs(phi)))
         tolr = 64 * amp * (yb + np.concatenate([[0], np.maximum.accumulate(yb)[:-1]])) \
-            + 64 * EPS * (np.abs(yref) + abs(mean)) * (p + 3) + 1e-300
+            + 64 * EPS * (np.abs(yref) + abs(mean)) * (p + 3) + FLOOR
         badr = np.where(~(np.abs(r - e0) <= tolr))[0]
         ctx.check("roundtrip.residual-of-sim", len(badr) == 0,
                   "armodel|residual(sim(e))", case,
@@ -311,7 +328,7 @@ def run_case(ctx, case):
     r2 = call(ar.armodel_residual, params, yin.copy(), **kwr)
     rref, rb = ref_res(phi.tolist(), yin.tolist(), mres, inir)
     if stable:
-        badr = np.where(~(np.abs(r2 - rref) <= 64 * rb + 1e-300))[0]
+        badr = np.where(~(np.abs(r2 - rref) <= 64 * rb + FLOOR))[0]
         ctx.check("residual.definition", len(badr) == 0, "armodel_residual|definition",
                   case, lambda: {"t": int(badr[0]), "got": float(r2[badr[0]]),
                                  "ref": float(rref[badr[0]]),
@@ -319,7 +336,7 @@ def run_case(ctx, case):
         nanpos = np.isnan(yin)
         if nanpos.any():
             ctx.check("residual.zero-at-missing",
-                      bool(np.all(np.abs(r2[nanpos]) <= 64 * rb[nanpos] + 1e-300)),
+                      bool(np.all(np.abs(r2[nanpos]) <= 64 * rb[nanpos] + FLOOR)),
                       "armodel_residual|nonzero-at-missing", case,
                       lambda: {"residuals": r2[nanpos][:5].tolist()})
         # sim(residual(y)) == y at the non-missing positions
